@@ -2,7 +2,8 @@
 
 from __future__ import annotations
 
-from typing import TYPE_CHECKING, Any, Generic, Literal, TypeVar
+from copy import deepcopy
+from typing import TYPE_CHECKING, Any, Generic, Literal, Self, TypeVar
 
 import numpy as np
 
@@ -11,6 +12,7 @@ from quansino.moves.composite import CompositeMove
 from quansino.moves.core import BaseMove
 from quansino.operations.displacement import Ball
 from quansino.protocols import Integrator, Operation
+from quansino.registry import get_typed_class
 from quansino.utils.dynamics import maxwell_boltzmann_distribution
 
 if TYPE_CHECKING:
@@ -347,6 +349,52 @@ class HamiltonianDisplacementMove(
 
     def __call__(self, context: HContextType) -> bool:
         return self.attempt_displacement(context)
+
+    def to_dict(self) -> dict[str, Any]:
+        """
+        Convert the `HamiltonianDisplacementMove` object to a dictionary. The
+        `distribution` callable is not serialized.
+
+        Returns
+        -------
+        dict[str, Any]
+            A dictionary representation of the `HamiltonianDisplacementMove` object.
+        """
+        dictionary = super().to_dict()
+        dictionary["kwargs"] = {"operation": self.operation.to_dict()}
+
+        return dictionary
+
+    @classmethod
+    def from_dict(cls, data: dict[str, Any]) -> Self:
+        """
+        Create a `HamiltonianDisplacementMove` object from a dictionary.
+
+        Parameters
+        ----------
+        data : dict[str, Any]
+            The dictionary representation of the `HamiltonianDisplacementMove` object.
+
+        Returns
+        -------
+        Self
+            The `HamiltonianDisplacementMove` object created from the dictionary.
+        """
+        kwargs = deepcopy(data.get("kwargs", {}))
+
+        if "operation" in kwargs:
+            integrator_data = kwargs["operation"]
+            integrator_class: type[Integrator] = get_typed_class(
+                integrator_data["name"], Integrator
+            )
+            kwargs["operation"] = integrator_class.from_dict(integrator_data)
+
+        instance = cls(**kwargs)
+
+        for key, value in data.get("attributes", {}).items():
+            setattr(instance, key, value)
+
+        return instance
 
     @property
     def default_operation(self) -> Integrator:
